@@ -2,12 +2,15 @@ package props
 
 import (
 	"fmt"
+	"os"
 	"path/filepath"
 	"sort"
 	"strings"
 	"time"
 
 	"github.com/thomasjungblut/go-sstables/simpledb"
+	"github.com/thomasjungblut/go-sstables/skiplist"
+	"github.com/thomasjungblut/go-sstables/sstables"
 
 	"verif/internal/fw"
 	"verif/internal/gen"
@@ -25,7 +28,7 @@ func init() {
 				n = 25000
 			}
 			return fw.Meta{N: n, Level: "exploration", Chunk: 5, CaseTimeoutS: 240, MinNT: 80,
-				Rule:        "one case = one lineage: 3..8 tables built through forced rotations with controlled size classes (tiny / ~1 KiB / ~4 KiB) and tombstone ratios (0 / some / mostly), including tombstones in newer tables over values in older, larger ones and overwrites across tables; compaction settings (max size {1,300,1000,3000,huge} x ratio {0,0.2,0.5,1} x threshold {0,1,2}) redrawn at every reopen so that prefix / suffix / middle-run / everything / nothing selections occur; around EVERY compaction cycle all keys are read before and after (must be identical and equal to the model), the returned selection must be a contiguous run of the live tables in age order and the live list afterwards must be the old list with that run collapsed into one table in place; then more writes, cycles and reopens. Non-trivial: a cycle merged >=2 tables while excluding the oldest live table, or merged tables holding tombstones; distinct by lineage hash",
+				Rule:        "one case = one lineage: 3..8 tables built through forced rotations with controlled size classes (tiny / ~1 KiB / ~4 KiB) and tombstone ratios (0 / some / mostly), including tombstones in newer tables over values in older, larger ones and overwrites across tables; one lineage in eight sits on top of a legacy-format fixture table (no metadata, reports 0 records); compaction settings (max size {1,300,1000,3000,huge} x ratio {0,0.2,0.5,1} x threshold {0,1,2}) redrawn at every reopen so that prefix / suffix / middle-run / everything / nothing selections occur; around EVERY compaction cycle all keys are read before and after (must be identical and equal to the model), the returned selection must be a contiguous run of the live tables in age order and the live list afterwards must be the old list with that run collapsed into one table in place; then more writes, cycles and reopens. Non-trivial: a cycle merged >=2 tables while excluding the oldest live table, or merged tables holding tombstones; distinct by lineage hash",
 				MinObs:      map[string]int64{"cycles_checked": 800, "cycles_that_merged": 300, "cycles_excluding_oldest": 30, "cycles_selecting_middle_run": 8, "tombstone_shadowing_older_value": 300, "reads_compared": 30000, "reopens": 200},
 				Assumptions: []string{"only the gap-free-run requirement of the selection is judged, not the selection policy itself"},
 			}
@@ -279,6 +282,34 @@ func runC06(c *fw.Case) {
 			return false
 		}
 		return true
+	}
+	// one lineage in eight starts on top of a table of the LEGACY format (no metadata file; the repository ships fixtures):
+	// such a table reports zero records and zero bytes, yet it holds data that compactions must carry along
+	if rd := os.Getenv("VERIF_REPO_DIR"); rd != "" && r.Intn(8) == 0 {
+		src := filepath.Join(rd, "sstables", "test_files", "v0_compat", "SimpleWriteHappyPathSSTable")
+		dst := filepath.Join(c.Dir, "sstable_000000000000001")
+		if copyDir(src, dst) == nil {
+			if lr, err := sstables.NewSSTableReader(sstables.ReadBasePath(dst), sstables.ReadWithKeyComparator(skiplist.BytesComparator{})); err == nil {
+				if it, err := lr.Scan(); err == nil {
+					for {
+						k, v, err := it.Next()
+						if err != nil {
+							break
+						}
+						keys = append(keys, string(k))
+						if len(v) > 0 {
+							model[string(k)] = string(v)
+						}
+					}
+				}
+				_ = lr.Close()
+				c.Obs("lineages_on_a_legacy_base_table", 1)
+				c.HashAdd("legacy-base")
+				note("legacy-format base table (%d keys)", len(model))
+			} else {
+				_ = os.RemoveAll(dst)
+			}
+		}
 	}
 	if !open() {
 		return
